@@ -38,15 +38,19 @@ def _classify(trace_evals):
     return "contracting" if last < 0.999 * prev else "stagnant"
 
 
-def run_capped(fn, pv, what, case):
-    """Runs fn() under the cap; returns (result|Raised, trace, max per-call evaluations)."""
+def run_capped(fn, pv, what, case, nsolve=None):
+    """Runs fn() under the cap; returns (result|Raised, trace).  nsolve = number of flux calculations a model with a
+    finite number of steps needs: the whole call may then use at most (nsolve + 2) x CAP evaluations."""
     cap = CAP
     while True:
         try:
-            with Trace(pv, cap=cap, keep=True) as tr:
+            with Trace(pv, cap=cap, keep=True, total_cap=None if nsolve is None else (nsolve + 2) * CAP) as tr:
                 out = call(fn)
             return out, tr
         except EvaluationCap as e:
+            if tr.total_exceeded:
+                raise Violation("%s: more than %d driving-force evaluations in total (%d flux calculations started) without returning or "
+                                "raising" % (what, (nsolve + 2) * CAP, tr.calls))
             verdict = _classify(tr.evals)
             if verdict == "stagnant" or cap >= HARD:
                 if verdict == "stagnant":
@@ -104,7 +108,7 @@ def check_model(case):
     else:
         fn = lambda: pv.ideal_non_isothermal_process(build.conditions(cond), case["steps"], dt, case["precision"], case["model"])
         nsolve = case["steps"]
-    out, tr = run_capped(fn, pv, "%s model (%d flux calculations)" % (case["kind"], nsolve), case)
+    out, tr = run_capped(fn, pv, "%s model (%d flux calculations)" % (case["kind"], nsolve), case, nsolve=nsolve)
     classes = [case["kind"], case["model"], case["perm"]["mode"], "raised" if is_raised(out) else "returned"]
     return {"nontrivial": tr.calls >= 1 and tr.count >= 3 * tr.calls, "classes": classes,
             "target": {"max_evaluations": float(max(tr.per_call or [0]))}}
@@ -120,7 +124,8 @@ def check_nonideal(case):
             dt = procs.step_length(case, s)
     except EvaluationCap:
         raise Violation("step-0 flux calculation of a %s case exceeded %d driving-force evaluations" % (case["kind"], CAP))
-    out, tr = run_capped(lambda: _unwrap(procs.run(case, s, dt)), s.pv, "%s model (%d steps)" % (case["kind"], case["steps"]), case)
+    out, tr = run_capped(lambda: _unwrap(procs.run(case, s, dt)), s.pv, "%s model (%d steps)" % (case["kind"], case["steps"]), case,
+                         nsolve=case["steps"])
     return {"nontrivial": tr.calls >= 1 and tr.count >= 3 * tr.calls,
             "classes": [case["kind"], case["model"], case["perm"]["mode"], "raised" if is_raised(out) else "returned"],
             "target": {"max_evaluations": float(max(tr.per_call or [0]))}}
@@ -131,6 +136,63 @@ def _unwrap(x):
     if is_raised(x):
         raise x.exc
     return x
+
+
+# ----------------------------------------------------------------------- small-amplitude cycles (constructed, not sampled)
+def check_bifurcation(case):
+    """Locates, by bisection on the permeate temperature, the boundary between convergence and a 2-cycle of the iteration map,
+    measures the cycle amplitude A just beyond it and asks for a precision p with p < A < 10 p (and A/30, 3A): whatever the
+    amplitude-to-precision ratio, the calculation must return or raise within the cap."""
+    pv, mix = make_pv(case)
+    probe = dict(case, precision=1e-7)
+
+    def run(tp, prec=None):
+        c = dict(probe if prec is None else dict(case, precision=prec), perm={"mode": "temperature", "T": tp, "p": None})
+        out, tr = run_capped(lambda: pv.calculate_partial_fluxes(**solver_kwargs(c)), pv, "calculate_partial_fluxes near a period-doubling "
+                             "point (permeate temperature %r, precision %r)" % (tp, c["precision"]), c)
+        return out, tr
+
+    cyc = lambda o: is_raised(o) and "converge" in str(o.exc)
+    # scan the permeate temperature for a non-convergent point with a convergent neighbour (either side)
+    grid = [case["perm"]["T"]] + [case["T"] - d for d in (0.5, 1.0, 2.0, 4.0, 8.0, 15.0, 25.0, 40.0, 60.0, 90.0, 130.0, 180.0) if case["T"] - d >= 120.0]
+    grid = sorted(set(grid))
+    res = [run(tp) for tp in grid]
+    hi = lo = None
+    for k in range(len(grid)):
+        if cyc(res[k][0]):
+            for nb in (k - 1, k + 1):
+                if 0 <= nb < len(grid) and not is_raised(res[nb][0]):
+                    hi, tr_hi, lo = grid[k], res[k][1], grid[nb]
+                    break
+        if hi is not None:
+            break
+    if hi is None:
+        raise Discard("no non-convergent point with a convergent neighbour on the permeate-temperature grid")
+    for _ in range(14):
+        mid = 0.5 * (lo + hi)
+        o, t = run(mid)
+        if cyc(o):
+            hi, tr_hi = mid, t
+        elif is_raised(o):
+            raise Discard("boundary not clean")
+        else:
+            lo = mid
+    ys = [e[0] for e in tr_hi.evals[-6:] if e[0] is not None]
+    if len(ys) < 4:
+        raise Discard("no cycle trace")
+    amp = max(abs(ys[i + 1] - ys[i]) for i in range(len(ys) - 1))
+    if not (1e-9 < amp < 0.5):
+        raise Discard("cycle amplitude out of range")
+    n = 0
+    for ratio in (3.0, 30.0, 0.3):  # precision = amplitude / ratio
+        prec = min(max(amp / ratio, 1e-8), 5e-3)
+        run(hi, prec)
+        n += 1
+    return {"nontrivial": True, "classes": [case["model"], "amplitude<1e-3" if amp < 1e-3 else "amplitude>=1e-3"], "target": {"amplitude": amp}}
+
+
+def bifurcation_strategy(tier):
+    return gen.solver_case(models=("UNIQUAC", "NRTL", "UNIQUAC"), modes=("temperature",), builtin_share=0.7)
 
 
 def _corpus():
@@ -154,6 +216,8 @@ PARTS = [
          floor={"quick": 300, "thorough": 10000}, corpus=_corpus(), shrink={"quick": False, "thorough": True}),
     Part("models", lambda tier: model_strategy(), check_model, {"quick": 1200, "thorough": 30000},
          floor={"quick": 60, "thorough": 1500}, shrink={"quick": False, "thorough": True}),
+    Part("period-doubling-boundary", bifurcation_strategy, check_bifurcation, {"quick": 1200, "thorough": 30000},
+         floor={"quick": 6, "thorough": 150}, shrink={"quick": False, "thorough": False}, max_discard=0.995),
     Part("non-ideal-models", lambda tier: __import__("pvverif.procs", fromlist=["x"]).process_case(
         kinds=("nonideal-iso", "nonideal-noniso"), max_steps=6, modes=("temperature", "pressure", "temperature")), check_nonideal,
          {"quick": 160, "thorough": 4000}, floor={"quick": 15, "thorough": 400}, shrink={"quick": False, "thorough": True}),
